@@ -2030,6 +2030,8 @@ Plan gen_C12(std::uint64_t seed, int tier) {
         e.pol = pi;
         e.per_method = g.r.chance(0.5);
         e.fresh_gen = g.r.chance(0.35);
+        if (g.r.chance(0.006))
+            e.compile = 1 + (int)g.r.below(2);
         g.p.events.push_back(e);
         return g.p.events.back();
     };
@@ -2193,6 +2195,8 @@ Plan gen_C13(std::uint64_t seed, int tier) {
         return p;
     p.events.resize(last_ck + 1);
     p.events[last_up].encode = 1;
+    if (r.chance(0.01))
+        p.events[last_up].compile = 1 + (int)r.below(2);
     p.events[last_up].hash_budget = 0;
     p.events[last_up].alloc_fail_at = -1;
     p.events[last_up].alloc_fail_from_end = -1;
@@ -2268,7 +2272,7 @@ Plan gen_C13(std::uint64_t seed, int tier) {
     dc.op = OP_DECODE;
     dc.pol = 0;
     if (r.chance(0.12)) {
-        static const int budgets[] = {1, 1, 2, 3};
+        static const int budgets[] = {1, 1, 1, 2};
         dc.hash_budget = budgets[r.below(4)];
         dc.hash_seed = 1 + r.below(1000000);
     }
